@@ -7,6 +7,7 @@ fn usage() -> ! {
 }
 
 fn main() {
+    vh::exec::install_panic_hook();
     let args: Vec<String> = std::env::args().collect();
     if args.len() < 2 {
         usage();
